@@ -169,6 +169,7 @@ def job_b(args):
         return r
     rnd = random.Random("c17b-%d-%s" % (seed, cls.__name__))
     fgrid = [50e6, 62.5e6, 75e6, 80e6, 100e6, 125e6, 133.333e6, 150e6, 166.666e6, 175e6, 200e6, 225e6, 250e6, 300e6]
+    pending = []
     if tier == "thorough":
         fgrid += [rnd.randrange(50, 301) * 1e6 for _ in range(40)]
     for sg in getattr(cls, "speedgrade_timings", {"default": None}):
@@ -201,20 +202,24 @@ def job_b(args):
                         viol(r, "c17-init-keyerror", "%s at %d Hz 1:%d (CL=%s CWL=%s): init sequence raises KeyError(%s)" % (cls.__name__, f, nph, cl, cwl, e), tag)
                     continue
                 mr0 = [a for (_, a, ba, cmd, _) in seq if cmd == CMD_MR and ba == 0][-1]
-                d = core.run_driver("c17dec", ["%d %d 0 0" % (MEM[cls.memtype], mr0)])[0].split()
-                wr = int(d[3]) if d[3] != "none" else None
-                tag["programmed_WR"] = wr
-                if wr is None or wr < need or wr > wait:
-                    if cls.memtype == "DDR2" and wr == 3:
-                        sig = "c17-ddr2-wr-const"
-                    elif cls.memtype in ("DDR3", "DDR4") and wr == formula:
-                        sig = "c17-wr-from-twtr"
-                    else:
-                        sig = "c17-wr"
-                    viol(r, sig, "%s sg=%s at %d Hz 1:%d: programmed write recovery %s clocks; datasheet tWR needs %d, the controller waits %d"
-                         % (cls.__name__, sg, f, nph, wr, need, wait), tag)
-                else:
-                    r.coverage["wr_ok"] = r.coverage.get("wr_ok", 0) + 1
+                pending.append((mr0, tag, need, wait, formula, sg, f, nph))
+    # one driver call for the whole module (decoding every programmed MR0 with the Lean JEDEC decoder)
+    decoded = core.run_driver("c17dec", ["%d %d 0 0" % (MEM[cls.memtype], p[0]) for p in pending]) if pending else []
+    for (mr0, tag, need, wait, formula, sg, f, nph), line in zip(pending, decoded):
+        d = line.split()
+        wr = int(d[3]) if d[3] != "none" else None
+        tag["programmed_WR"] = wr
+        if wr is None or wr < need or wr > wait:
+            if cls.memtype == "DDR2" and wr == 3:
+                sig = "c17-ddr2-wr-const"
+            elif cls.memtype in ("DDR3", "DDR4") and wr == formula:
+                sig = "c17-wr-from-twtr"
+            else:
+                sig = "c17-wr"
+            viol(r, sig, "%s sg=%s at %d Hz 1:%d: programmed write recovery %s clocks; datasheet tWR needs %d, the controller waits %d"
+                 % (cls.__name__, sg, f, nph, wr, need, wait), tag)
+        else:
+            r.coverage["wr_ok"] = r.coverage.get("wr_ok", 0) + 1
     r.coverage["partB_modules"] = 1
     return r
 
